@@ -94,6 +94,13 @@ def data(case):
                 A[i, 0, a0: a0 + 2 + i % 3] = np.nan
                 if i % 2:
                     A[i, 0, a0 + 6: a0 + 8] = np.nan
+    if case.get("whole_rows") and not case.get("int_panel") and kind != "plateau":
+        # some instances hold whole numbers only (counts) next to real-valued ones; a nested
+        # frame stores their cells with an integer dtype (see wrap), the 3-D array is float
+        for A in (Xtr, Xap):
+            for i in range(len(A)):
+                if (i + case["seed"]) % 3 != 1:
+                    A[i] = np.round(A[i] * 3)
     if case.get("int_panel") and kind != "plateau":
         # integer-valued observations stored as int64 (counts)
         Xtr = np.round(Xtr * 3).astype("int64")
@@ -126,6 +133,7 @@ def cut(X3, lens):
     return pd.DataFrame({"dim_%d" % j: [pd.Series(X3[i, j, : lens[i]].copy()) for i in range(n)] for j in range(c)})
 
 
+WHOLE = [False]  # store the cells of whole-number instances with an integer dtype (set per case)
 COL_LABELS = [None]  # names of the nested frame's columns (set per case): None = default names, or integers that are not the positions
 CELL_STEP = [0]  # difference between the time index origins of consecutive instances (set per case)
 CELL_ORIGIN = [0]  # time index origin of the Series cells of nested frames built by wrap() (set per case)
@@ -145,6 +153,12 @@ def wrap(X3, container, labels=None, lens=None):
                 c = X.iat[i, j]
                 o = CELL_ORIGIN[0] + i * CELL_STEP[0]
                 c.index = pd.RangeIndex(o, o + len(c))
+    if WHOLE[0] and X3.dtype.kind == "f":
+        for j in range(X.shape[1]):
+            for i in range(X.shape[0]):
+                v = X.iat[i, j]
+                if isinstance(v, pd.Series) and len(v) and np.all(np.isfinite(v.to_numpy())) and np.all(v.to_numpy() == np.round(v.to_numpy())):
+                    X.iat[i, j] = v.astype("int64")
     if COL_LABELS[0] and X.shape[1] >= 2:
         # column names are not data either: integer names that differ from the positions (a
         # column subset / reordering of an integer-named frame); a 3-D array knows positions only
@@ -167,6 +181,9 @@ def oracle(case, ctx):
     CELL_ORIGIN[0] = int(case.get("cell_origin") or 0)
     CELL_STEP[0] = int(case.get("cell_step") or 0)
     COL_LABELS[0] = case.get("col_labels")
+    WHOLE[0] = bool(case.get("whole_rows")) and not case.get("int_panel")
+    if WHOLE[0]:
+        ctx.label("integer_typed_cells_next_to_float_cells")
     if COL_LABELS[0]:
         ctx.label("integer_column_names_" + COL_LABELS[0])
     if CELL_STEP[0]:
@@ -341,7 +358,7 @@ def cases(draw, family):
         "subset": draw(st.lists(st.integers(0, 5), min_size=1, max_size=4)),
         "fit_container": draw(st.sampled_from(["nested", "numpy3d"])),
         "apply_container": draw(st.sampled_from(["nested", "numpy3d"])),
-        "keep_labels": draw(st.booleans()), "prefit": draw(st.integers(0, 3)) == 0, "cell_origin": draw(st.sampled_from([0, 0, 3, -2])), "static_col": draw(st.booleans()), "cell_step": draw(st.sampled_from([0, 0, 0, 3, 7])), "col_labels": draw(st.sampled_from([None, None, "int_reversed", "int_shifted"])), "int_panel": draw(st.integers(0, 4)) == 0,
+        "keep_labels": draw(st.booleans()), "prefit": draw(st.integers(0, 3)) == 0, "cell_origin": draw(st.sampled_from([0, 0, 3, -2])), "static_col": draw(st.booleans()), "cell_step": draw(st.sampled_from([0, 0, 0, 3, 7])), "col_labels": draw(st.sampled_from([None, None, "int_reversed", "int_shifted"])), "whole_rows": draw(st.integers(0, 3)) == 0, "int_panel": draw(st.integers(0, 4)) == 0,
         "unequal": draw(st.one_of(st.none(), st.lists(st.integers(0, 30), min_size=2, max_size=6))),
         "fit_labels": draw(st.sampled_from([None, None, "shifted", "reversed", "shuffled", "strings"])),
     }
@@ -428,6 +445,10 @@ def enum_every_kind(tier):
         if k in STATIC_OK:
             yield dict(base, family=fam, spec=spec, fit_container="nested" if (labels or origin) else cont, apply_container=cont,
                        keep_labels=labels is not None, fit_labels=labels, prefit=prefit, cell_origin=origin, static_col=True)
+        if labels is None and not origin and not prefit and k != "plateau":
+            # whole-number instances stored as integer-typed cells next to real-valued ones
+            yield dict(base, family=fam, spec=spec, fit_container=cont, apply_container="nested", keep_labels=False, fit_labels=None,
+                       prefit=False, cell_origin=0, whole_rows=True)
         if not panelpool_univariate(k) and labels is None and not origin and not prefit:
             # multivariate kinds: nested frames whose integer column names are not the positions,
             # at fit time, at apply time, or both
@@ -437,8 +458,25 @@ def enum_every_kind(tier):
                                prefit=False, cell_origin=0, col_labels=cl)
 
 
+def enum_supervised_forest_large(tier):
+    """The supervised forest on training panels of 40 instances - large enough that no bagged
+    tree misses a class, the failure recorded as an open finding for small training sets - in
+    every container pairing, with real-valued, integer and mixed (whole-number instances stored
+    with an integer dtype) cells."""
+    base = {"n_train": 40, "n_apply": 6, "c": 1, "t": 24, "dup": False, "copy_mask": [False, True, False], "label_kind": "str",
+            "perm": [3, 0, 4, 1, 2, 5], "single": 2, "subset": [4, 1], "unequal": None}
+    for seed in ((4321,) if tier == "quick" else (4321, 77, 5, 900, 12, 31, 64, 1000)):
+        for fc, ac in (("nested", "nested"), ("numpy3d", "nested"), ("nested", "numpy3d"), ("numpy3d", "numpy3d")):
+            for variant in ({}, {"whole_rows": True}, {"int_panel": True}):
+                for ne in ((5,) if tier == "quick" else (5, 12)):
+                    yield dict(base, seed=seed, family="estimator", spec={"kind": "stsf", "random_state": 3, "n_estimators": ne},
+                               fit_container=fc, apply_container=ac, keep_labels=False, fit_labels=None, prefit=False, cell_origin=0,
+                               **dict({"int_panel": False}, **variant))
+
+
 def subchecks():
     return [
+        SubCheck("supervised_forest_large_panels", oracle, enumerate_cases=enum_supervised_forest_large, shards_quick=16, shards_thorough=16, exhaustive=True),
         SubCheck("every_kind", oracle, enumerate_cases=enum_every_kind, shards_quick=16, shards_thorough=16, exhaustive=True),
         SubCheck("length_parameter_grid", oracle_grid, enumerate_cases=enum_length_parameter_grid, shards_quick=8, shards_thorough=16, exhaustive=True),
         SubCheck("transformers", oracle, cases("transformer"), quick=600, thorough=5000, shards_quick=6, shards_thorough=16),
